@@ -699,7 +699,9 @@ pub fn boxes_for(id: &str, quick: bool) -> Vec<Box_> {
                     } else {
                         // (with all layouts the three-task box has 1.3e5 task sets and 2.3e9 states)
                         v.push(mk("2 tasks curves+sporadic C<=3 all layouts", ana, 2, with_curves(sporadic_grid(4, 1)), 3, &[], false));
-                        v.push(mk("3 tasks curves C<=2 all layouts", ana, 3, curve_menu(), 2, &[], false));
+                        v.push(mk("3 tasks {Curve[0,3],Curve[2,5],ExtCurve[0,4],ExtCurve[1,3,6]} C<=2 all layouts", ana, 3,
+                            vec![ArrSpec::Curve { dmin: vec![0, 3] }, ArrSpec::Curve { dmin: vec![2, 5] }, ArrSpec::ExtCurve { dmin: vec![0, 4] }, ArrSpec::ExtCurve { dmin: vec![1, 3, 6] }],
+                            2, &[], false));
                     }
                 }
             }
